@@ -34,7 +34,13 @@ class WireUnit(VU):
             rt.oid = OidTheory(rt, order=getattr(self, "need_order", False))
         self.xv = XValTheory(rt, interp)
         self.x = x690model.install(rt, interp)
-        rt.hooks["puresnmp.util:get_request_id"] = lambda i, c, a, k: i.ctx.fresh_int("clock")
+        self.clock_vals = []
+
+        def clock(i, c, a, k):
+            v = i.ctx.fresh_int("clock")
+            self.clock_vals.append(v)
+            return v
+        rt.hooks["puresnmp.util:get_request_id"] = clock
 
     def creds(self, interp, family):
         rt, ctx = self.rt, interp.ctx
@@ -101,14 +107,13 @@ class Emit(WireUnit):
         data = a[1]
         rid = None
         # the request id is whatever the clock said; find it in the emitted term through the spec: it must be ONE value
-        rids = [v for v in ctx.names if v.startswith("clock")]
-        rid = SInt(z3.Int("clock!0"))
+        rid = self.clock_vals[0] if self.clock_vals else SInt(z3.Int("no-clock-read"))
         f1, f2 = (self.ns, self.m) if self.op == "bulkget" else (0, 0)
         version = 0 if self.family == "V1" else 1
         spec = rfc.community_message(version, SBytes(rt.f_str_ascii(creds.fields["community"].e)),
                                      rfc.pdu(tag, rid, f1, f2, list(zip(oids, vals)), F), F)
         ctx.check(oname("C05", T, "ensures", "datagram-is-the-RFC-message-for-the-intended-request"), interp.eq(data, spec))
-        ctx.check(oname("C05", T, "ensures", "the-clock-is-read-once"), ctx.names.get("clock", 0) == 1)
+        ctx.check(oname("C05", T, "ensures", "the-clock-is-read-once"), len(self.clock_vals) == 1)
         return "emitted"
 
 
@@ -394,7 +399,7 @@ class EmitAfterReconfigure(WireUnit):
         expect = [c1, c2, c1 if self.temporary else c2]
         for n, (cr, (a, k)) in enumerate(zip(expect, sent)):
             F = rfc.Forms("x690")
-            rid = SInt(z3.Int("clock!%d" % n))
+            rid = self.clock_vals[n] if n < len(self.clock_vals) else SInt(z3.Int("no-clock-read"))
             spec = rfc.community_message(version, SBytes(rt.f_str_ascii(cr.fields["community"].e)),
                                          rfc.pdu(rfc.GET, rid, 0, 0, [(oid, None)], F), F)
             for p in self.props:
